@@ -462,6 +462,23 @@ open LP
 
 def checkRes (op : String) (args res : List String) : Verdict :=
   let K : Ring := none
+  match op, args, res with
+  | "disc", [_, xs, a], [d] =>
+    -- poly::discriminant: D * lc(A) = Sylvester determinant of (A, dA/dx); D = 1 for degree 1
+    (match pNat? xs, pPolyRaw? a, pPolyRaw? d with
+     | some x, some ra, some rd =>
+       if !(rawCanonical K ra && rawCanonical K rd) then .viol "poly-canon" "operand/result not canonical" else
+       let A := MPoly.normalize K ra
+       let D := MPoly.normalize K rd
+       let m := MPoly.degreeIn x A
+       if m = 1 then (if D = MPoly.const K 1 then .ok "disc/deg1" else .viol "res-disc" s!"discriminant of a linear polynomial is {showPoly D}")
+       else
+         let dA := MPoly.derivative K A x
+         let want := MPoly.resultantSpec K x A dA
+         if MPoly.mul K D (MPoly.coeffIn K x m A) = want then .ok s!"disc/deg{m}"
+         else .viol "res-disc" s!"disc*lc = {showPoly (MPoly.mul K D (MPoly.coeffIn K x m A))}, Sylvester determinant of (p, p') = {showPoly want}"
+     | _, _, _ => .skip "bad disc line")
+  | _, _, _ =>
   match args, res with
   | [_, xs, a, b], [r] =>
     (match pNat? xs, pPolyRaw? a, pPolyRaw? b with
